@@ -85,6 +85,8 @@ def native_replay(spec: Dict[str, Any]) -> Dict[str, Any]:
 def work(task: Tuple[str, str, str, List[str], str]) -> Dict[str, Any]:
     relpath, qualname, prop, active_regions, tier = task
     t0 = time.time()
+    from pyvc import loops as _loops0
+    _loops0.NO_RECORD = False
     out: Dict[str, Any] = {"relpath": relpath, "qualname": qualname, "verdicts": [], "error": None}
     try:
         repo, ct = load_all()
@@ -95,6 +97,7 @@ def work(task: Tuple[str, str, str, List[str], str]) -> Dict[str, Any]:
             return work_lemma(repo, ct, qualname, prop, tier, out, t0)
         con = REG.contracts[(relpath, qualname)]
         fr = verify_function(repo, ct, REG, con)
+        out["loops_restructured"] = f"{relpath}|{qualname}" in _loops0.RESTRUCTURED
         out.update(sha256=fr.sha256, paths=fr.paths, unsupported=fr.unsupported,
                    assumptions=fr.assumptions, opaque_calls=fr.opaque_calls, inlined=fr.inlined,
                    exec_s=round(fr.exec_s, 3), n_obligations=len(fr.obligations))
@@ -179,6 +182,8 @@ def work_canary(repo, ct, relpath: str, spec: str, prop: str, out: Dict[str, Any
         return out
     con = REG.contracts[(relpath, qualname)]
     only = None
+    from pyvc import loops as _loops
+    _loops.NO_RECORD = True
     if str(k).startswith("region:"):
         # the obligations a listed known finding excludes must FAIL when the exclusion is switched off: shows that the
         # clause (e.g. non-interference under a different hash seed) is not vacuous on the real, unmutated code
@@ -316,7 +321,7 @@ def try_replays(ex, ct, con: Contract, fr, ob, v, prop: str) -> List[Dict[str, A
     return res
 
 
-COMPLEMENT_PROPS = ("C04", "C05", "C12", "C06")
+COMPLEMENT_PROPS = ("C04", "C05", "C12", "C06", "C07")
 
 
 def run_complement(prop: str, tier: str, seed: int) -> Dict[str, Any]:
@@ -415,7 +420,31 @@ def run_check(prop: str, tier: str) -> int:
                       "unsupported": res.get("unsupported")})
         assumptions.update(res.get("assumptions") or [])
         if res.get("unsupported"):
-            undecided.append(f"{res['qualname']}: unsupported: {res['unsupported']}")
+            fkey0 = (res["relpath"], res["qualname"])
+            changed0 = fkey0 in base_sha and base_sha[fkey0] != combined_sha(repo, res)
+            hit0 = None
+            if changed0 and res["relpath"] != "<lemma>":
+                # the changed function left the verifier's subset: nothing can be proved about it, but a native search
+                # with the property's oracle may still exhibit a failing input (a hit is a real violation)
+                sp = {"oracle": prop, "function": f"{res['relpath']}:{res['qualname']}", "meta": {}}
+                hit0 = native_search(sp)
+                searches.append({"function": sp["function"], "found": hit0.get("found"), "cases": hit0.get("cases")})
+            if hit0 and hit0.get("found"):
+                spec = {"property": prop, "oracle": prop, "obligation": f"{res['qualname']}: outside the verifier's subset "
+                        f"({res['unsupported']}); bounded native search", "function": sp["function"],
+                        "inputs": hit0["inputs"], "meta": hit0.get("meta", {}),
+                        "native": {"reproduced": True, "detail": hit0.get("detail", "")},
+                        "found_by": "bounded native search (function changed and could not be verified)"}
+                violations.append((f"{res['qualname']}:unsupported", write_replay(prop, spec), True))
+            else:
+                undecided.append(f"{res['qualname']}: unsupported: {res['unsupported']}")
+        # a loop invariant that no longer holds means the sidecar is out of date for this function (or the loop really
+        # changed): by itself that is no evidence against the property.  Obligations of such a function count as
+        # violations only with a natively reproduced input; otherwise they are undecided.
+        # (when the loops are the recorded ones, statement for statement in their headers, a failing invariant is a
+        # change of behaviour inside the loop and counts like any other failing obligation)
+        inv_broken = res.get("loops_restructured") and any(
+            v["kind"] in ("inv-init", "inv-step") and v["status"] != solve.PROVED for v in res["verdicts"])
         for v in res["verdicts"]:
             solver_time += v["time_s"]
             if v["kind"] == "cover":
@@ -456,7 +485,7 @@ def run_check(prop: str, tier: str) -> int:
             if confirmed:
                 path = write_replay(prop, confirmed[0])
                 violations.append((v["name"], path, True))
-            elif failing and norm(v["name"]) in base_proved:
+            elif failing and norm(v["name"]) in base_proved and not inv_broken:
                 spec = reps[0] if reps else {"property": prop, "obligation": v["name"], "clause": v["text"],
                                              "function": f"{res['relpath']}:{res['qualname']}"}
                 spec["note"] = ("no-failing-input-found: obligation was PROVED on the pristine tree"
@@ -466,7 +495,8 @@ def run_check(prop: str, tier: str) -> int:
                 path = write_replay(prop, spec)
                 violations.append((v["name"], path, False))
             else:
-                undecided.append(f"{v['name']}: {v['status']} {v.get('reason', '')}")
+                undecided.append(f"{v['name']}: {v['status']} {v.get('reason', '')}"
+                                 + (" [a sidecar loop invariant of this function no longer holds]" if inv_broken else ""))
                 if os.environ.get("PYVC_DEBUG") and reps:
                     for r in reps:
                         print("  DEBUG-REPLAY", v["name"], json.dumps(r.get("native")), json.dumps(r.get("inputs"))[:600])
